@@ -25,11 +25,25 @@ TRUSTED = ["python ast module"]
 INT = lambda a: True  # noqa: E731  (seat counts, lengths)
 
 
-def _ballot_loop_var(f, contains="ballots"):
+def _ballot_loop_var(f, contains="ballots", ctx=None):
     for n in astx.walk_own(f.node):
         if isinstance(n, ast.For) and contains in astx.u(n.iter):
             names = astx.assigned_names(n.target)
             return names[-1]
+    # the validator may range over a derived view of the profile (<profile>.to_scores_dict() ...): its for-all claim is
+    # then only as good as the view's coverage of the ballots, which C11.R7 decides; the per-ballot tests themselves
+    # are in a shape this rule does not evaluate (UNDECIDED)
+    if ctx is not None and len(f.params) > 1:
+        from rules import c11
+        for n in astx.walk_own(f.node):
+            if isinstance(n, ast.For) and isinstance(n.iter, ast.Call) and isinstance(n.iter.func, ast.Attribute) and astx.is_name(n.iter.func.value, f.params[1]):
+                view = n.iter.func.attr
+                sub = type(ctx)(ctx.prog, ctx.prop, ctx.tier)
+                c11.r7_dict_views(sub)
+                for o in sub.obs:
+                    if o.status == "VIOLATED" and view in o.construct:
+                        ctx.violated(f, n, f"{f.short}: every ballot is validated", f"the validator ranges over `{astx.u(n.iter)}`, and that view does not cover every ballot ({o.construct}): "
+                                     "ballots it skips are never checked against the limits")
     raise AnalysisError(f"anchor-missing: ballot loop in {f.short}")
 
 
@@ -95,7 +109,7 @@ def r1_ballot_data(ctx):
                rename=_rn({b: "b"}), forall=True)
     # 8 scores missing
     f = prog.find_func("GeneralRating._validate_profile")
-    b = _ballot_loop_var(f)
+    b = _ballot_loop_var(f, ctx=ctx)
     obligation(ctx, f, "row 8: rating rules reject ballots without scores (TypeError, every ballot)", "not b.scores", "TypeError", rename=_rn({b: "b"}), forall=True)
     f = prog.find_func("score_profile_from_ballot_scores")
     b = _ballot_loop_var(f)
@@ -110,7 +124,7 @@ def r1_ballot_data(ctx):
 def r2_score_limits(ctx):
     prog = ctx.prog
     f = prog.find_func("GeneralRating._validate_profile")
-    b = _ballot_loop_var(f)
+    b = _ballot_loop_var(f, ctx=ctx)
     rn = _rn({b: "b", "self.L": "L", "self.k": "k"})
     obligation(ctx, f, "row 9: a score above the per-candidate limit is rejected (TypeError, every ballot)",
                "any(score > L for score in b.scores.values())", "TypeError", rename=rn, forall=True)
